@@ -917,6 +917,22 @@ class Evaluator:
             for cond, alt in ((c, it.args[1]), (neg(c), it.args[2])):
                 out.extend(self._for_over(s, st.fork(cond), alt, depth + 1))
             return self._join(out)
+        # `kept = {k: v for k, v in D.items() if c}` ... `for k, v in kept.items(): BODY`  is  `for k, v in D.items(): if c: BODY`
+        # (a dict comprehension keeps the order of its source; the keys of D.items() are distinct, so nothing is overwritten)
+        if it.op == "call" and it.args[0].op == "attr" and it.args[0].args[1] == "items" and not it.args[1] and not it.args[2] and not s.orelse:
+            dc = _peel(it.args[0].args[0])
+            if dc.op == "comp" and dc.args[0] == "dict" and len(dc.args[2]) == 1 and dc.args[1].op == "kv":
+                src, conds = dc.args[2][0]
+                kv = dc.args[1]
+                if src.op == "call" and src.args[0].op == "attr" and src.args[0].args[1] == "items" and kv.args[0] is mk("sub", mk("elem", src), const(0)):
+                    el = mk("elem", src)
+                    lev = self._emit("loop", s, st, iter=src, elem=el)
+
+                    def bind_d(bst, pair=mk("tuple", (kv.args[0], kv.args[1])), conds=conds):
+                        bst.pc = tuple(bst.pc) + tuple(conds)
+                        self._assign(s.target, pair, bst, s, loop_target=True)
+
+                    return self._loop(s, st, s.body, s.orelse, el, bind_d, lev)
         # a loop over a list built by a one-generator comprehension visits f(x) for each x of the source in order
         if depth and _is_simple_comp(it) and not s.orelse:
             src = it.args[2][0][0]
